@@ -147,6 +147,17 @@ def ask():
     }}
 
 
+def wait_accept():
+    """a accepts Start and Resp and waits for a Resp while processing Start: the response must come back as the wait
+    result, not also as a new input of a."""
+    return {"timeout": None, "steps": {
+        "a": {"accepts": ["Start", "Resp"], "nw": 2,
+              "body": [G, {"op": "wait", "ty": "Resp", "wid": "w1", "timeout": None, "wev": True, "only_ty": "Start"},
+                       {"op": "ret", "ty": "A", "only_ty": "Start"}, {"op": "none"}]},
+        "b": {"accepts": ["A"], "nw": 1, "body": [G, {"op": "stop"}]},
+    }}
+
+
 def family(name, quick=True):
     """Lists of (label, prog, ext_menu) per property family."""
     out = []
@@ -163,6 +174,7 @@ def family(name, quick=True):
             out.append(("overlap(2,1,3)", overlap(2, 1, 3), [("A", None), ("D", None)]))
             out.append(("targeted(3)", targeted(3), [("A", "c"), ("A", None)]))
         out.append(("ask", ask(), [("Resp", None), ("A", None)]))
+        out.append(("wait_accept", wait_accept(), [("Resp", None)]))
     elif name == "collect":
         grid = [(2, ("A", "A"), 3, False), (2, ("A", "B"), 3, False), (1, ("A", "A"), 3, False), (2, ("A", "A"), 4, True)]
         if not quick:
@@ -211,6 +223,11 @@ def family(name, quick=True):
         out.append(("retryable typed", pipeline(retry_max=2, delay=1, fail_until=99, exc="ValueError", retry_on=["ValueError"]), []))
         for sd in ((3,) if quick else (1, 3, 6)):
             out.append(("stop_after_delay(%d),fixed(2)" % sd, pipeline(retry_max=None, stop_delay=sd, delay=2, fail_until=99), []))
+    elif name == "resume":
+        out.append(("resumable(2,2,3,1)", resumable(2, 2, 3, 1), []))
+        out.append(("resumable(1,2,2,99)", resumable(1, 2, 2, 99), []))
+        out.append(("resumable(2,3,3,2,delay=2)", resumable(2, 3, 3, 2, 2), []))
+        out.append(("resumable_wait", resumable_wait(), [("Resp1", None), ("Resp", None)]))
     elif name == "waits":
         out.append(("chain(5,1)", pipeline(retry_max=4, wait=["chain", [5, 1]], fail_until=99), []))
         out.append(("chain(1,4,2)", pipeline(retry_max=5, wait=["chain", [1, 4, 2]], fail_until=99), []))
@@ -219,3 +236,25 @@ def family(name, quick=True):
         out.append(("incr(1,2,max=4)", pipeline(retry_max=5, wait=["incr", 1, 2, 4], fail_until=99), []))
         out.append(("fixed(3)", pipeline(retry_max=3, wait=["fixed", 3], fail_until=99), []))
     return out
+
+
+def resumable(nw=2, n=2, retry_max=3, fail_until=1, delay=0):
+    """Order-insensitive deterministic workflow for C12/C13: every step records its input in the state store
+    (idempotent: key derived from the input), the final result is a constant."""
+    return {"timeout": None, "steps": {
+        "a": {"accepts": ["Start"], "nw": 1,
+              "body": [{"op": "send", "ty": "A", "n": n}, G, {"op": "store_set", "key": "uid"}, {"op": "none"}]},
+        "b": {"accepts": ["A"], "nw": nw, "retry": {"max": retry_max, "wait": ["fixed", delay]},
+              "body": [G, {"op": "fail", "until": fail_until}, {"op": "store_set", "key": "uid"}, {"op": "ret", "ty": "B"}]},
+        "c": {"accepts": ["B"], "nw": 1,
+              "body": [G, {"op": "collect", "expected": ["B"] * n}, {"op": "store_set", "key": "uid"},
+                       {"op": "stop", "result": "done"}]},
+    }}
+
+
+def resumable_wait():
+    return {"timeout": None, "steps": {
+        "a": {"accepts": ["Start"], "nw": 1,
+              "body": [G, {"op": "wait", "ty": "Resp", "wid": "w1", "timeout": None, "reqs": {"k": 1}, "wev": True},
+                       {"op": "store_set", "key": "uid"}, G, {"op": "stop", "result": "done"}]},
+    }}
